@@ -381,9 +381,20 @@ theorem C06_page_repaired {α : Type} (l : List α) (off lim : Nat)
 def exSubs : List (SubResult Int) :=
   [⟨[1, 2, 3], [⟨1, 5⟩, ⟨2, -3⟩, ⟨3, 0⟩]⟩, ⟨[2, 3, 4], [⟨3, 7⟩, ⟨2, 1⟩]⟩, ⟨[1, 2, 3, 9], []⟩]
 
-def exSortRes (l : List (Res Int)) : List (Res Int) := isort (fun a b => cmpInt b.hybrid a.hybrid) l
+def exSortRes (l : List (Res Int)) : List (Res Int) := isort (fun a b => cmpInt (-a.hybrid) (-b.hybrid)) l
 
 example : exSubs.length ≠ 1 ∧ ∀ s ∈ exSubs, ∀ r ∈ s.res, r.id ∈ s.set := by decide
+
+/-- every hypothesis of `C06_merge` at once (the sorter is an insertion sort on `Int` scores) -/
+example : ((searchParallel (· + ·) exSortRes true exSubs).res.map (·.id)).Nodup := by
+  have h := C06_merge (· + ·) (· ≤ ·) exSortRes (fun l => isort_perm _ l)
+    (fun l => (isort_sorted (tpc_of_key (fun r : Res Int => -r.hybrid)) l).imp (by
+      intro a b hab
+      have := (cmpInt_le (-a.hybrid) (-b.hybrid)).mp hab
+      show b.hybrid ≤ a.hybrid
+      omega))
+    true exSubs (by decide) (by decide)
+  exact h.2.1
 
 example : ((searchParallel (· + ·) exSortRes false exSubs).set, (searchParallel (· + ·) exSortRes false exSubs).res.map (fun r => (r.id, r.hybrid)))
     = ([2, 3], [(3, 7), (2, -2)]) := by decide
